@@ -382,8 +382,41 @@ def _compiled_rows(kind, text):
     return out
 
 
+CONTEXT_SHAPES = [
+    # (name, lines with the %context line, index of that line, rows whose compiled form must not change)
+    ("context-inside-block", ["alpha *", "    %context=block:x", "    beta *", "gamma ~"], 1, ["alpha *", "gamma ~"]),
+    ("context-inside-block-under-outer-context", ["%context=block:y", "alpha *", "    %context=block:x", "    beta *", "gamma ~"], 2,
+     ["alpha *", "gamma ~"]),
+    ("context-inside-second-block", ["alpha *", "    beta *", "delta *", "    %context=block:x", "    beta *", "gamma ~"], 3,
+     ["alpha *", "delta *", "gamma ~"]),
+]
+
+
+def run_l_context(kind, ctx):
+    """a %context line holds for the rules below it in ITS block only: the rules of enclosing and following blocks compile
+    as they do without the line"""
+    for name, lines, at, others in CONTEXT_SHAPES:
+        with_c = "\n".join(lines) + "\n"
+        without = "\n".join(ln for i, ln in enumerate(lines) if i != at) + "\n"
+        case = {"part": "L", "compiler": kind, "param": "%context", "shape": name}
+        ctx.evals += 2
+        ctx.states += 1
+        try:
+            a, b = _compiled_rows(kind, with_c), _compiled_rows(kind, without)
+        except Exception as e:  # noqa
+            ctx.outcomes["L:%s:context-not-compilable" % kind] += 1
+            continue
+        ctx.outcomes["L:%s:context" % kind] += 1
+        for row in others:
+            if a.get(row) != b.get(row):
+                ctx.violation({"kind": "param-leaks-to-sibling-rule", "compiler": kind, "param": "%context", "fields": ["context"]},
+                              dict(case, row=row), "text %r: rule %r compiled to %r, without the %%context line to %r"
+                              % (with_c, row, a.get(row), b.get(row)))
+
+
 def run_l(block, ctx):
     kind = block["kind"]
+    run_l_context(kind, ctx)
     for param in LEAK_PARAMS[kind]:
         for name, lines, others in LEAK_SHAPES:
             with_p = "\n".join(ln.format(A="alpha *", B="beta *", C="gamma ~", P=param) for ln in lines) + "\n"
